@@ -35,6 +35,18 @@ RULE = ("(1) file-store traces of 8-40 ops (set/get/del/in/keys/items/len/clear/
         "pool (URL-shaped ids, %, +, space, /, '.', '..', '', *.lock, unicode, case pairs, %-escapes) and random strings, "
         "values with edge whitespace / unicode / JSON documents, both value converters, second instance after every op; "
         "non-trivial = at least one accepted set and one delete/clear/re-open. "
+        "(1b) the same traces over key FAMILIES whose converted file names are in prefix relation (base, base + '.x' / '.uk' / "
+        "'.' / '.lock' / '.lock.lock' / '.lock.x' / '.*' / '*' / '?' / '[a]' / '-x' / '_x' / '~' / '/x' / ':8443', chains, URL-shaped "
+        "client ids one of which extends the other): every key written early, removals and rewrites prefer the key whose name is a "
+        "proper prefix of the name of a key that holds a value, read-modify-write, clear, re-open, second instance after every "
+        "op; the CONTENTS of every file in the directory after every step against the model (chk_files, with the frame condition "
+        "on the family), no file outside the two names each key owns, no value file of a live key missing; non-trivial = a "
+        "shorter key was removed or rewritten while a longer one held a value. name_related of the model against str.startswith. "
+        "(2b) a provider whose client_db is the file-backed store next to the same provider over a dict: client-id families in "
+        "prefix relation, register / update (read-modify-write) / de-register / authorize, export -> import into a fresh "
+        "provider over the same directory after EVERY step; membership, records, listing and the answer to an authorization "
+        "request of every client of the family are the reference's; non-trivial = a client was de-registered while a client "
+        "whose file name extends its file name was registered. "
         "(2) provider histories of 8-16 ops generated adaptively (authorize, redeem, refresh, revoke, introspect, userinfo, "
         "tick, dynamic registration + read, PAR + redemption, client_secret_jwt with jti replay, wrong client / wrong class / "
         "garbage tokens), dumped and restored after EVERY prefix, per configuration kind; non-trivial = the suffix contains "
@@ -80,6 +92,7 @@ ASSUMPTIONS = ["the cookie protection keys are configured key material (key file
                "census transient Grant.remember_token / Grant.remove_inactive_token (Coq list census_transient): per-grant copies of the session manager's configuration taken at creation, never changed afterwards; under the default configuration a restored grant has the same values (the driver's comparison with the restored twin decides, not the list)",
                "recorded finding restore-drops-session-manager-config is kept narrow: only SessionManager attributes the constructor took from session_params (sub_func, remove_inactive_token, remember_token, node_type, node_info_class) that a fresh provider has and the restored one lacks; any other attribute that is neither exported nor rebuilt is state-not-exported:<Class>.<attr>",
                "census transient SessionManager.conf: constructor input, read in __init__ only; what it configures is compared attribute by attribute",
+               "file-backed client database: the member auth_method of a client record (the provider's note of the client authentication method last used per request type; written into the cached record in place, read only to update itself, no decision depends on it) is left out of the record comparison - it is never written back to the file",
                "census transient SessionManager.userinfo: written by EndpointContext.do_userinfo and never read (claims are collected through the context's own userinfo attribute)"]
 
 SIG_LOCK_W = "filestore-lock-suffix-key"
@@ -120,9 +133,12 @@ def exc_out(e):
     return "(RErr (Refused 99))"
 
 
-def fs_trace(ctx, rng, n, conv, tno):
+def fs_trace(ctx, rng, n, conv, tno, family=None):
+    """family: a key pool whose converted names are in prefix relation (name_family); the trace then fills the family
+    first, prefers removing / rewriting a key whose name is a proper prefix of the name of a key that holds a value, and
+    records the CONTENTS of every file in the directory after every step (second case, for chk_files)"""
     from idpyoidc.storage.abfile import AbstractFileSystem
-    d = os.path.join(ctx.dir, "fs", "t%d" % tno)
+    d = os.path.join(ctx.dir, "fs", "t%s" % tno)
     shutil.rmtree(d, ignore_errors=True)
     vconv = "idpyoidc.util.JSON" if conv == "json" else ""
 
@@ -130,14 +146,22 @@ def fs_trace(ctx, rng, n, conv, tno):
         return AbstractFileSystem(fdir=d, key_conv="idpyoidc.util.QPKey", value_conv=vconv)
 
     ser = (lambda v: json.dumps(v)) if conv == "json" else (lambda v: v)
-    keys = rng.sample(KEYPOOL, 6) + ["".join(rng.choice("ab.%+ /ål") for _ in range(rng.randint(1, 6))) for _ in range(2)]
-    if rng.random() < 0.5:
-        k0 = rng.choice(["a", "x", "é"])
-        keys += [k0, k0 + ".lock"]
+    if family is not None:
+        keys = list(family)
+    else:
+        keys = rng.sample(KEYPOOL, 6) + ["".join(rng.choice("ab.%+ /ål") for _ in range(rng.randint(1, 6))) for _ in range(2)]
+        if rng.random() < 0.5:
+            k0 = rng.choice(["a", "x", "é"])
+            keys += [k0, k0 + ".lock"]
     fs = mk()
     ref = {}
     rec = {"conv": conv, "keys": keys, "ops": []}
+    if family is not None:
+        rec["family"] = True
     obs = []
+    fobs = []
+    fill = rng.sample(keys, len(keys)) if family is not None else []      # every key of the family is written once, early
+    shadowed = False    # a key was removed / rewritten while a key whose name extends its name held a value
     accepted = removed = False
     pending = None      # read-modify-write: the object a get handed out, to be changed in place and stored again
     for _ in range(n):
@@ -145,10 +169,20 @@ def fs_trace(ctx, rng, n, conv, tno):
         k = rng.choice(keys)
         if pending is not None:
             r, k = 0.0, pending[0]
+        elif fill and rng.random() < 0.7:
+            r, k = 0.1, fill.pop()
         elif 0.36 <= r < 0.52 and ref and rng.random() < 0.6:
             k = rng.choice(sorted(ref))
+        elif family is not None and (r < 0.36 or 0.52 <= r < 0.66) and rng.random() < 0.7:
+            # the shorter key of a pair: its converted name is a proper prefix of the name of a key that holds a value
+            short = [a for a in keys if any(b != a and name_of(b).startswith(name_of(a)) for b in ref)]
+            if short:
+                k = rng.choice(short)
         kb = coq_bytes(k.encode("utf-8"))
         before = dict(ref)
+        if family is not None and (r < 0.36 or 0.52 <= r < 0.66) and any(b != k and name_of(b).startswith(name_of(k)) for b in ref):
+            shadowed = True
+            ctx.count("fs:family:" + ("set" if r < 0.36 else "del") + "-of-prefix-key" + ("" if k in ref else "-absent"))
         if r < 0.36:
             if pending is not None:
                 v, pending = pending[1], None
@@ -235,6 +269,19 @@ def fs_trace(ctx, rng, n, conv, tno):
         seen = list(n2.items())
         listing = sorted(os.listdir(d))
         rec["ops"].append({"op": op, "out": out})
+        if family is not None:
+            files = [(x, open(os.path.join(d, x), "r", newline="").read()) for x in listing if os.path.isfile(os.path.join(d, x))]
+            rec["ops"][-1]["files"] = listing
+            fobs.append("(%s, %s)" % (opt, coq_list(["(%s, %s)" % (coq_bytes(a.encode("utf-8")), coq_str(b)) for a, b in files],
+                                                    "(fname * pystr)")))
+            # the lock file beside a value file is empty; no file appears that no key of the trace owns
+            own = set(name_of(x) for x in keys) | set(name_of(x) + ".lock" for x in keys)
+            for a, b in files:
+                if a not in own:
+                    ctx.violation(SIG_FS, "after %r the directory holds %r, which is neither the value file nor the lock file of a key of the trace" % (op, a), rec)
+            for kk in ref:
+                if name_of(kk) not in listing:
+                    ctx.violation(SIG_FS, "after %r the value file %r of key %r (written, not removed) is gone" % (op, name_of(kk), kk), rec)
         if dict(seen) != ref or len(seen) != len(ref):
             bad = [x for x in set(dict(seen)) | set(ref) if dict(seen).get(x, "<absent>") != ref.get(x, "<absent>")]
             kk = bad[0] if bad else None
@@ -258,8 +305,42 @@ def fs_trace(ctx, rng, n, conv, tno):
             coq_list(["(%s, %s)" % (coq_bytes(a.encode("utf-8")), coq_str(ser(b))) for a, b in seen], "(bytes * pystr)"),
             coq_list([coq_bytes(x.encode("utf-8")) for x in listing], "fname")))
         ctx.count("fs:" + op[0])
+    if family is not None:
+        ctx.case_seen(rec, accepted and removed and shadowed)
+        return (coq_list(obs, "obs"), rec), ("(%s, %s)" % (coq_list([coq_bytes(x.encode("utf-8")) for x in keys], "bytes"),
+                                                          coq_list(fobs, "fobs")), rec)
     ctx.case_seen(rec, accepted and removed)
     return (coq_list(obs, "obs"), rec)
+
+
+def name_of(key):
+    """the file name the store gives a key (idpyoidc.util.QPKey = urllib quote_plus)"""
+    return urllib.parse.quote_plus(key)
+
+
+FAMILY_BASES = ["a", "app", "client_1", "https://rp.example.org", "https://client.example.org/cb", "https://rp.example.org:8443",
+                "urn:uuid:1-2", "é", "a b", "x.y", "k%", "", ".", "rp-1", "A"]
+FAMILY_SUFFIXES = [".x", ".uk", ".v2", ".lock", ".lock.lock", ".lock.x", ".lockx", ".", "..", ".*", "*", "?", "[a]", ".[a-z]", ".?",
+                   "-x", "_x", "~", "x", "0", "/x", "/", " ", "+", "%", "%2E", ".json", ".tmp", ".bak", ".lck", ".é", ":8443",
+                   ".uk/cb", "\n"]
+
+
+def name_family(rng):
+    """a key pool whose CONVERTED names are in prefix relation: a base key, the base plus suffixes (quote_plus leaves
+    '.', '-', '_', '~', letters, digits alone; glob metacharacters, '/', ' ', '%' are escaped - the escaped forms extend the
+    base name all the same), chains (base + s1 + s2), and one key outside the family"""
+    base = rng.choice(FAMILY_BASES)
+    suf = rng.sample(FAMILY_SUFFIXES, rng.randint(3, 5))
+    keys = [base] + [base + x for x in suf]
+    keys.append(base + suf[0] + rng.choice(FAMILY_SUFFIXES))
+    if rng.random() < 0.5:
+        keys.append(base + ".lock" + rng.choice(["", ".lock", ".x"]))
+    keys.append(rng.choice(["other", "https://other.example.com", "b"]))
+    out = []
+    for x in keys:
+        if x not in out:
+            out.append(x)
+    return out
 
 
 def fs_witnesses(ctx):
@@ -301,6 +382,170 @@ def quote_cases(ctx, rng, n):
     imp = ["Lib.Base", "Lib.PyStr", "Lib.Urlenc", "Model.FileStore"]
     ctx.coq_check_cases(imp, "bytes * bytes", "chk_quote", q, label="quote")
     ctx.coq_check_cases(imp, "bytes * bytes", "chk_unquote", u, label="unquote")
+
+
+
+# ---------------------------------------------------------------- (2b) provider over a file-backed client database
+CID_BASES = ["https://rp.example.org", "https://rp.example.org/cb", "https://rp.example.org:8443", "rp", "client_1", "app-1"]
+CID_SUFFIXES = [".uk", ".x", ".", ".v2", "-2", "_b", ".lock", ".lock.x", "/cb", ".*", "*", "x", ":8443", ".uk.lock", "~"]
+
+
+def cdb_authz(server, cid, redirect):
+    ep = server.get_endpoint("authorization")
+    req = {"client_id": cid, "redirect_uri": redirect, "scope": ["openid"], "state": "STATE", "nonce": "nonce-nonce-nonce-0",
+           "response_type": "code"}
+    try:
+        parsed = ep.parse_request(dict(req))
+        if "error" in parsed:
+            return "error:%s" % parsed["error"]
+        resp = ep.process_request(parsed)
+        if "error" in resp:
+            return "error:%s" % resp["error"]
+        if "code" in (resp.get("response_args") or {}):
+            return "code"
+        return "other"
+    except Exception as e:
+        return "exc:%s" % type(e).__name__
+
+
+def cdb_rec(r):
+    """client record without the provider's note of the authentication method last used per request type (written into
+    the cached record in place by verify_client, read only to update itself, never written back to a file-backed store)"""
+    return None if r is None else {k: v for k, v in r.items() if k != "auth_method"}
+
+
+def filecdb_history(ctx, rng, reb, tno, n):
+    """A provider whose client database is the file-backed store, and the same provider over a plain dict (the reference).
+    Client identifiers come from a family whose converted names are in prefix relation (URL-shaped ids: one the other plus
+    '.uk', ':8443', '/cb', '.lock' ...).  Registrations, read-modify-write updates, de-registrations (preferring the client whose
+    file name is a proper prefix of the file name of a registered one), authorization requests; after EVERY step the context
+    is exported and imported into a fresh provider built from the same configuration (same directory): membership, records,
+    listing and the answer to an authorization request of every client of the family must be those of the reference."""
+    import srv, srv_c13
+    from idpyoidc.server import Server
+    from idpyoidc.server.configure import OPConfiguration
+    from idpyoidc.storage.abfile import AbstractFileSystem
+    d = os.path.join(ctx.dir, "cdb", "p%d" % tno)
+    shutil.rmtree(d, ignore_errors=True)
+    spec = {"class": "idpyoidc.storage.abfile.AbstractFileSystem",
+            "kwargs": {"fdir": d, "key_conv": "idpyoidc.util.QPKey", "value_conv": "idpyoidc.util.JSON"}}
+
+    def mk(file_backed):
+        conf = srv.op_conf(extra={"client_db": copy.deepcopy(spec)} if file_backed else None)
+        S = Server(OPConfiguration(conf=conf, base_path=srv.RUN), cwd=srv.RUN)
+        reb.rebind()
+        return S
+
+    base = rng.choice(CID_BASES)
+    suf = rng.sample(CID_SUFFIXES, 3)
+    fam = [base] + [base + x for x in suf] + [base + suf[0] + rng.choice(CID_SUFFIXES), "https://other.example.com"]
+    fam = [x for i, x in enumerate(fam) if x not in fam[:i]]
+    redirect = dict((cid, "https://cb.example.com/cb/%d" % i) for i, cid in enumerate(fam))
+    A, D = mk(True), mk(False)
+    rec = {"family": fam, "history": [], "fdir": d}
+    if not isinstance(A.context.cdb, AbstractFileSystem) or isinstance(D.context.cdb, AbstractFileSystem):
+        ctx.violation(SIG_FS, "client_db configuration did not produce a file-backed / a dict client database", rec)
+        return
+    fill = rng.sample(fam, len(fam))
+    shadowed = False
+    for i in range(n):
+        r = rng.random()
+        reg = sorted(D.context.cdb.keys())
+        if fill and rng.random() < 0.75:
+            op = ("register", fill.pop())
+        elif r < 0.2:
+            op = ("register", rng.choice(fam))
+        elif r < 0.55 and reg:
+            short = [a for a in fam if any(b != a and name_of(b).startswith(name_of(a)) for b in reg)]
+            op = ("deregister", rng.choice(short) if short and rng.random() < 0.75 else rng.choice(fam))
+        elif r < 0.75 and reg:
+            op = ("update", rng.choice(reg))
+        else:
+            op = ("authz", rng.choice(fam))
+        cid = op[1]
+        out = "ok"
+        if op[0] == "register":
+            cr = json.loads(json.dumps(srv.client_record(cid, redirect_uris=[(redirect[cid], None)], client_name="n%d" % i)))
+            try:
+                A.context.cdb[cid] = copy.deepcopy(cr)
+                A.keyjar.add_symmetric(cid, cr["client_secret"])
+                D.context.cdb[cid] = copy.deepcopy(cr)
+                D.keyjar.add_symmetric(cid, cr["client_secret"])
+            except ValueError as e:
+                out = "refused"
+                if not name_of(cid).endswith(".lock"):
+                    ctx.violation(SIG_FS, "registration of client %r refused by the file-backed client database: %r" % (cid, e), rec)
+        elif op[0] == "deregister":
+            if any(b != cid and name_of(b).startswith(name_of(cid)) for b in reg):
+                shadowed = True
+                ctx.count("cdb:deregister-of-prefix-client" + ("" if cid in reg else "-absent"))
+            del A.context.cdb[cid]
+            D.context.cdb.pop(cid, None)
+        elif op[0] == "update":
+            for S in (D, A):
+                try:
+                    cr = S.context.cdb[cid]
+                except KeyError as e:
+                    ctx.violation(SIG_FS, "client %r is registered (reference: %r) but reading its record from the file-backed client "
+                                  "database raises %r" % (cid, sorted(D.context.cdb.keys()), e), rec)
+                    ctx.case_seen(rec, shadowed)
+                    return
+                cr["client_name"] = "u%d" % i
+                cr.setdefault("contacts", []).append("ops%d@example.org" % i)
+                S.context.cdb[cid] = cr
+        else:
+            out = cdb_authz(A, cid, redirect[cid])
+            want = cdb_authz(D, cid, redirect[cid])
+            if out != want:
+                ctx.violation(SIG_RESTORE, "file-backed provider answers the authorization request of %r with %r, the provider over a dict with %r"
+                              % (cid, out, want), rec)
+        rec["history"].append({"op": op, "out": out})
+        ctx.count("cdb:" + op[0])
+        # ---- crash point: export, discard, import into a fresh provider from the same configuration
+        js, alt = export(A, "context")
+        if alt is not None:
+            ctx.violation("dump-not-json", "exported state is not JSON-serialisable: %s" % alt[1], rec)
+            return
+        B = mk(True)
+        try:
+            srv_c13.restore(B, json.loads(js))
+        except Exception as e:
+            ctx.violation(SIG_RESTORE, "import of the state exported after step %d raises %r" % (i, e), rec)
+            return
+        want = D.context.cdb
+        for who, S in (("original", A), ("restored", B)):
+            got = S.context.cdb
+            if sorted(got.keys()) != sorted(want.keys()) or len(got) != len(want):
+                ctx.violation(SIG_FS if who == "original" else SIG_RESTORE,
+                              "after %r the %s provider lists the clients %r, the reference %r" % (op, who, sorted(got.keys()), sorted(want.keys())), rec)
+            for c in fam:
+                if (c in got) != (c in want) or cdb_rec(got.get(c)) != cdb_rec(want.get(c)):
+                    ctx.violation(SIG_FS if who == "original" else SIG_RESTORE,
+                                  "after %r the %s provider: client %r registered: %r, record %r; the reference: %r, %r"
+                                  % (op, who, c, c in got, got.get(c), c in want, want.get(c)), rec)
+        for c in fam:
+            a, w = cdb_authz(B, c, redirect[c]), cdb_authz(D, c, redirect[c])
+            if a != w:
+                ctx.violation(SIG_RESTORE, "after %r and export -> import the provider answers the authorization request of client %r with %r, "
+                              "the reference with %r" % (op, c, a, w), rec)
+            ctx.count("cdb-restored-authz:" + w.split(":")[0])
+    ctx.case_seen(rec, shadowed)
+    shutil.rmtree(d, ignore_errors=True)
+
+
+def related_cases(ctx, rng, n):
+    """the file-name relation of the model (name_related over quote_plus) against str.startswith on urllib's names"""
+    cases = []
+    for _ in range(n):
+        fam = name_family(rng)
+        a, b = rng.choice(fam), rng.choice(fam)
+        na, nb = name_of(a), name_of(b)
+        rel = na != nb and (na.startswith(nb) or nb.startswith(na))
+        cases.append(("((%s, %s), %s)" % (coq_bytes(a.encode("utf-8")), coq_bytes(b.encode("utf-8")), coq_bool(rel)), {"related": [a, b]}))
+    for c in cases:
+        ctx.case_seen(c[1], True)
+    ctx.coq_check_cases(["Lib.Base", "Lib.PyStr", "Lib.Urlenc", "Model.FileStore", "Model.FileStoreFrame"], "(bytes * bytes) * bool",
+                        "chk_related", cases, label="fsrelated")
 
 
 # ======================================================================================== (2) provider
@@ -1911,6 +2156,18 @@ def run(ctx):
     ctx.coq_check_cases(imp, "list obs", "chk_trace", traces, shard=12, label="fstrace", diag="diag_trace")
     fs_witnesses(ctx)
     quote_cases(ctx, rng, 200 if q else 4000)
+    # (1b) key families whose converted names are in prefix relation (k, k + ".x", k + ".lock", k + ".", k + "*", URL-shaped
+    # ids one of which extends the other): the same traces, the shorter key removed / rewritten while the longer one holds a
+    # value, a new instance after every step, and the contents of every file in the directory against the model
+    fam_traces, fam_files = [], []
+    for i in range(18 if q else 300):
+        t, f = fs_trace(ctx, rng, rng.randint(12, 36), "json" if i % 3 == 2 else "passthru", "f%d" % i, family=name_family(rng))
+        fam_traces.append(t)
+        fam_files.append(f)
+    ctx.coq_check_cases(imp, "list obs", "chk_trace", fam_traces, shard=12, label="fsfamily", diag="diag_trace")
+    ctx.coq_check_cases(imp + ["Model.FileStoreFrame"], "list bytes * list fobs", "chk_files", fam_files, shard=12, label="fsfiles",
+                        diag="diag_files")
+    related_cases(ctx, rng, 200 if q else 4000)
     shutil.rmtree(os.path.join(ctx.dir, "fs"), ignore_errors=True)
 
     # (2) provider
@@ -1939,6 +2196,17 @@ def run(ctx):
         jwks_def_witness(ctx, reb)
         par_json_witness(ctx, reb)
         session_config_witness(ctx, reb)
+        # (2b) the client database is the file-backed store; client ids whose file names are in prefix relation
+        import logging
+        lg = logging.getLogger("idpyoidc")
+        lvl = lg.level
+        lg.setLevel(logging.CRITICAL)      # (look-ups of unregistered clients are part of the histories: the store logs each)
+        try:
+            for r in range(3 if q else 40):
+                filecdb_history(ctx, rng, reb, r, rng.randint(9, 12) if q else rng.randint(10, 20))
+        finally:
+            lg.setLevel(lvl)
+        shutil.rmtree(os.path.join(ctx.dir, "cdb"), ignore_errors=True)
     finally:
         reb.restore()
         clock.uninstall()
